@@ -238,46 +238,48 @@ Print Assumptions C18_obj_nut_bolt_mate.
 
 (* ------------------------------------------------------------------ the model is the source text
    Generated/ThreadExpr.v is translated from the Go AST of the CURRENT sdf/screw.go and sdf/utils.go on every
-   run; the definitions the theorems above speak about (Sdf/Screw.v) are equal to it, for all arguments, in
-   any number system (reals for the theorems, binary64 for the differential execution) *)
+   run; the definitions the theorems above speak about (Sdf/Screw.v) are equal to it for all arguments, at the
+   real-number instance the theorems are stated at.  (Proved by conversion on the unchanged tree - then the two
+   are the same term in any number system - and otherwise by comparing the two real expressions congruence by
+   congruence with ring / field / lra at the leaves, see Sdf/ScrewEq.v.) *)
 
-Theorem C18_transl_SawTooth : forall (O : Ops) (x period : T O), gen_SawTooth x period = sawtooth x period.
-Proof. exact @transl_SawTooth. Qed.
+Theorem C18_transl_SawTooth : forall x period : R, @gen_SawTooth ROps x period = @sawtooth ROps x period.
+Proof. exact transl_SawTooth. Qed.
 Print Assumptions C18_transl_SawTooth.
 
-Theorem C18_transl_DtoR : forall (O : Ops) (degrees : T O), gen_DtoR degrees = dtor degrees.
-Proof. exact @transl_DtoR. Qed.
+Theorem C18_transl_DtoR : forall degrees : R, @gen_DtoR ROps degrees = @dtor ROps degrees.
+Proof. exact transl_DtoR. Qed.
 Print Assumptions C18_transl_DtoR.
 
 (* Screw3D on a non-nil profile: the guards, and pitch / lead = -pitch*starts / half length / taper as stored *)
-Theorem C18_transl_Screw3D : forall (O : Ops) (bb : Box2 O) (length taper pitch : T O) (starts : Z),
+Theorem C18_transl_Screw3D : forall (bb : Box2 ROps) (length taper pitch : R) (starts : Z),
   option_map (fun g => mkScrew (ScrewSDF3_pitch g) (ScrewSDF3_lead g) (ScrewSDF3_length g) (ScrewSDF3_taper g))
-             (gen_Screw3D false bb length taper pitch starts)
-  = screw3d length taper pitch starts.
-Proof. exact @transl_Screw3D. Qed.
+             (@gen_Screw3D ROps false bb length taper pitch starts)
+  = @screw3d ROps length taper pitch starts.
+Proof. exact transl_Screw3D. Qed.
 Print Assumptions C18_transl_Screw3D.
 
-Theorem C18_transl_Screw3D_bb : forall (O : Ops) (bb : Box2 O) (length taper pitch : T O) (starts : Z),
-  option_map ScrewSDF3_bb (gen_Screw3D false bb length taper pitch starts)
-  = option_map (screw_bb (vy (b2max bb))) (screw3d length taper pitch starts).
-Proof. exact @transl_Screw3D_bb. Qed.
+Theorem C18_transl_Screw3D_bb : forall (bb : Box2 ROps) (length taper pitch : R) (starts : Z),
+  option_map ScrewSDF3_bb (@gen_Screw3D ROps false bb length taper pitch starts)
+  = option_map (screw_bb (vy (b2max bb))) (@screw3d ROps length taper pitch starts).
+Proof. exact transl_Screw3D_bb. Qed.
 Print Assumptions C18_transl_Screw3D_bb.
 
-Theorem C18_transl_Screw3D_nil : forall (O : Ops) (bb : Box2 O) (length taper pitch : T O) (starts : Z),
-  gen_Screw3D true bb length taper pitch starts = None.
-Proof. exact @transl_Screw3D_nil. Qed.
+Theorem C18_transl_Screw3D_nil : forall (bb : Box2 ROps) (length taper pitch : R) (starts : Z),
+  @gen_Screw3D ROps true bb length taper pitch starts = None.
+Proof. exact transl_Screw3D_nil. Qed.
 Print Assumptions C18_transl_Screw3D_nil.
 
 (* ScrewSDF3.Evaluate: the helical mapping, the taper, the length clamp *)
-Theorem C18_transl_ScrewSDF3_Evaluate : forall (O : Ops) (thread : V2 O -> T O) (s : ScrewSDF3 O) (p : V3 O),
-  gen_ScrewSDF3_Evaluate thread (s_pitch s) (s_lead s) (s_length s) (s_taper s) p = screw_eval thread s p.
-Proof. exact @transl_ScrewSDF3_Evaluate. Qed.
+Theorem C18_transl_ScrewSDF3_Evaluate : forall (thread : V2 ROps -> R) (s : ScrewSDF3 ROps) (p : V3 ROps),
+  @gen_ScrewSDF3_Evaluate ROps thread (s_pitch s) (s_lead s) (s_length s) (s_taper s) p = screw_eval thread s p.
+Proof. exact transl_ScrewSDF3_Evaluate. Qed.
 Print Assumptions C18_transl_ScrewSDF3_Evaluate.
 
 (* ISOThread: the vertex list (with the corners marked for smoothing) handed to Polygon2D *)
-Theorem C18_transl_ISOThread : forall (O : Ops) (radius pitch : T O) (external : bool),
-  gen_ISOThread radius pitch external = iso_thread_pv radius pitch external.
-Proof. exact @transl_ISOThread. Qed.
+Theorem C18_transl_ISOThread : forall (radius pitch : R) (external : bool),
+  @gen_ISOThread ROps radius pitch external = @iso_thread_pv ROps radius pitch external.
+Proof. exact transl_ISOThread. Qed.
 Print Assumptions C18_transl_ISOThread.
 
 (* ------------------------------------------------------------------ non-vacuity *)
